@@ -84,6 +84,10 @@ func loc(tz string) *time.Location {
 	return time.FixedZone(tz, sign*(h*3600+m*60))
 }
 
+func timeDate(y, m, d, h, mi, s, us int, tz string) time.Time {
+	return time.Date(y, time.Month(m), d, h, mi, s, us*1000, loc(tz))
+}
+
 // fillPrimitive sets the scalar payload of a FHIR primitive message; returns false if the
 // message is not a primitive it knows.
 func (g *ResGen) fillPrimitive(m protoreflect.Message) bool {
